@@ -94,7 +94,7 @@ def _pip(px, py, poly):
     return inside
 
 
-def run_pipeline(img, path, mirror_y, ne, mon):
+def run_pipeline(img, path, mirror_y, ne, mon, rescale=None, offset=None):
     """returns dict(cells {cid: region label}, border set(labels), pairs set(frozenset(labels)), n_junctions) or None"""
     from fv.gen import raster
     from fv.oracle import mesh as omesh
@@ -102,7 +102,12 @@ def run_pipeline(img, path, mirror_y, ne, mon):
     raster.save(img, path)
     lab, nlab, outside = raster.regions(img)
     sk = skeleton.Skeleton(path, mirror_y=mirror_y)
-    v, e, c = sk.create_lattice()
+    kw_ = {}
+    if rescale is not None:
+        kw_ = {"rescale": rescale, "offset": offset}      # vertex = (pixel - offset) / rescale: physical units
+    v, e, c = sk.create_lattice(**kw_)
+    rx, ry = rescale if rescale is not None else (1.0, 1.0)
+    ox, oy = offset if offset is not None else (0.0, 0.0)
     mon.count("pipeline:run")
     bad = omesh.check_mesh(v, e, c)
     if bad:
@@ -111,7 +116,7 @@ def run_pipeline(img, path, mirror_y, ne, mon):
     # cell -> region label, from a pixel strictly inside the cell's polygon
     cell_label = {}
     for cid, cell in c.items():
-        poly = [(vv.x, (sk.max_y - vv.y) if mirror_y else vv.y) for vv in cell.vertices]
+        poly = [(vv.x * rx + ox, (sk.max_y - (vv.y * ry + oy)) if mirror_y else (vv.y * ry + oy)) for vv in cell.vertices]
         cx, cy = np.mean([p[0] for p in poly]), np.mean([p[1] for p in poly])
         found = None
         for r_ in range(0, 12):
@@ -202,8 +207,14 @@ def run_case(case):
                 mirror = bool(rng.integers(2))
                 ne = int(rng.integers(3, 10))
                 a = np.ascontiguousarray(a)
+                resc = offs = None
+                if (case["seed"][2] + si) % 3 == 0:
+                    # the parser's physical-unit option: topology must not depend on it
+                    resc = [float(10 ** rng.uniform(-1.5, 1.0)), float(10 ** rng.uniform(-1.5, 1.0))]
+                    offs = [float(rng.uniform(-20, 20)), float(rng.uniform(-20, 20))]
+                    hist["with-rescale"] = hist.get("with-rescale", 0) + 1
                 try:
-                    out = run_pipeline(a, path, mirror, ne, mon)
+                    out = run_pipeline(a, path, mirror, ne, mon, resc, offs)
                 except Exception as exc:
                     import traceback
                     mon.fail("pipeline-raises", "the mesh supports resampling and frame construction", exc=repr(exc)[:160],
